@@ -337,6 +337,9 @@ def tolerance(repo, rep):
 
 
 def run(repo, rep, tier):
+    rep.rule("R-C14-8", "every parameter of the functions behind this property is read (site selection): none is accepted and then ignored")
+    from .shared import unused_parameters
+    unused_parameters(repo, rep, "R-C14-8", ("wavespectra.core.select", "wavespectra.specdataset.SpecDataset.sel"), "site selection")
     rep.rule("R-C14-1", "a difference of two longitudes is folded into [0, 180] before it enters the distance")
     rep.rule("R-C14-2", "box bounds keep their orientation: min - tol used as lower bound, max + tol as upper bound, per axis")
     rep.rule("R-C14-3", "the three selectors share construction, convention swap-back and site renumbering; the dispatcher maps "
